@@ -835,7 +835,10 @@ mod pad {
     pub fn generate(rng: &mut Rng, thorough: bool, out: &mut Vec<String>) {
         // (ε, δ, sensitivity, cardinality cap): the defaults, `relaxed()`, the unit test's, and a wide one
         let oprf_cfgs: &[(f64, f64, u32, u32)] = &[(5.0, 1e-6, 2, 10), (10.0, 1e-4, 2, 3), (1.0, 1e-6, 2, 10), (5.0, 1e-6, 2, 1), (2.0, 1e-6, 3, 4)];
-        let agg_cfgs: &[(f64, f64, u32, u32)] = &[(5.0, 1e-6, 10, 256), (10.0, 1e-4, 3, 32), (5.0, 1e-6, 10, 32), (10.0, 1e-4, 3, 256), (2.0, 1e-6, 2, 32)];
+        // the last one adds more than 65 535 dummy rows in one pass (256 buckets x truncation point ~ 272): the total sent to the
+        // excluded helper no longer fits 16 bits (seed C12g: the count message narrowed from BA32 to BA16)
+        let agg_cfgs: &[(f64, f64, u32, u32)] =
+            &[(5.0, 1e-6, 10, 256), (10.0, 1e-4, 3, 32), (5.0, 1e-6, 10, 32), (10.0, 1e-4, 3, 256), (2.0, 1e-6, 2, 32), (0.04, 1e-6, 10, 256)];
         let reps = if thorough { 5 } else { 1 };
         for rep in 0..reps {
             for (i, &(eps, delta, sens, cap)) in oprf_cfgs.iter().enumerate() {
